@@ -346,7 +346,7 @@ PROPS = {
                                            "inbound MTU 1600 and 1200, 25 boundary lengths plus random ones up to 9000, single datagrams and bursts of 3-8 that arrive before the application reads; "
                                            "every arrival must be byte-identical to something sent in that direction for that endpoint, once, truthfully attributed; within the limits it must have arrived when the execution settles"]),
     "C06": dict(title="allocation lifetime, refresh and deletion are exact", level="model_checking",
-                run=with_ledger_rt(with_server_trace(core_run(["MC_time", "MC_life", "MC_stream", "MC_reaper", "MC_longlife"], ["GEN_time", "GEN_users", "GEN_relayA", "GEN_lifeA", "GEN_stream", "GEN_reaper", "GEN_reaperS", "GEN_longlife", "GEN_mtu"]))),
+                run=with_ledger_rt(with_server_trace(core_run(["MC_time", "MC_life", "MC_stream", "MC_reaper", "MC_longlife"], ["GEN_time", "GEN_users", "GEN_relayA", "GEN_lifeA", "GEN_stream", "GEN_stream3", "GEN_reaper", "GEN_reaperS", "GEN_longlife", "GEN_mtu"]))),
                 assumptions=BASE_ASSUME),
     "C07": dict(title="permissions and channels live one full timeout past their last refresh", level="model_checking",
                 run=with_server_trace(core_run(["MC_relay", "MC_relayB", "MC_steps", "MC_veto"], ["GEN_relayA", "GEN_relayB", "GEN_steps", "GEN_chan3", "GEN_veto"])),
@@ -400,7 +400,7 @@ PROPS = {
                              "'at once' is read as: at once on a loss-free network, and within one transaction (8 s) when transmissions are lost",
                              "'any number of peers' is not explored (4 peers); with several hundred peers the permission refresh exceeds the server's inbound MTU (observation D13 in DESIGN.md)"]),
     "C15": dict(title="server resources and lifecycle events balance through every teardown", level="model_checking",
-                run=with_ledger_rt(core_run(["MC_life", "MC_tcp", "MC_steps", "MC_resv", "MC_reaper"], ["GEN_lifeA", "GEN_lifeB", "GEN_tcpA", "GEN_tcpB", "GEN_steps", "GEN_resv", "GEN_stream", "GEN_reaper", "GEN_reaperS"])),
+                run=with_ledger_rt(core_run(["MC_life", "MC_tcp", "MC_steps", "MC_resv", "MC_reaper"], ["GEN_lifeA", "GEN_lifeB", "GEN_tcpA", "GEN_tcpB", "GEN_steps", "GEN_resv", "GEN_stream", "GEN_stream3", "GEN_reaper", "GEN_reaperS"])),
                 assumptions=BASE_ASSUME + ["after every step the lifecycle callbacks made during the step are compared with the spec's EvDiff (created/deleted events per allocation, permission, channel), "
                                            "the relay sockets handed out by the harness generator with the live allocations (open count, closed at most once)",
                                            "every path ends with Server.Close followed by a two-hour drain: created - deleted must be 0 for every key, AllocationCount 0, every relay socket closed, and no lifecycle event may arrive late (a timer that outlived its allocation); "
